@@ -40,22 +40,22 @@ type c17Traits struct {
 }
 
 var c17Table = map[string]c17Traits{
-	"1":  {true, 1, 1, 1, "v1", false, false, false, false, false, "no", false},
-	"2":  {true, 2, 1, 1, "v1", false, false, false, false, false, "no", false},
-	"3":  {true, 2, 2, 2, "v1", false, false, false, false, false, "no", false},
-	"4":  {true, 2, 2, 3, "v1", false, false, false, false, false, "no", false},
-	"5":  {true, 2, 2, 3, "v1", true, false, false, false, false, "no", false},
-	"6":  {true, 2, 2, 3, "v6", true, true, false, false, false, "no", false},
-	"7":  {true, 2, 2, 3, "v6", true, true, false, true, false, "early", false},
-	"8":  {true, 2, 2, 3, "v8", true, true, false, true, true, "early", false},
-	"9":  {true, 2, 2, 3, "v9", true, true, false, true, true, "early", false},
-	"10": {true, 2, 2, 3, "v9", true, true, true, true, true, "yes", false},
-	"11": {true, 2, 2, 3, "v11", true, true, true, true, true, "yes", false},
-	"12": {true, 3, 2, 3, "v11", true, true, true, true, true, "yes", true},
-	"org.matrix.msc3667":  {false, 2, 2, 3, "v6", true, true, true, true, false, "early", false},  // v7 + integer power levels
-	"org.matrix.msc3787":  {false, 2, 2, 3, "v9", true, true, false, true, true, "yes", false},    // v9 + knock_restricted
-	"org.matrix.msc4014":  {false, 2, 2, 3, "v9", true, true, true, true, true, "yes", false},     // v10 + pseudo IDs
-	"org.matrix.hydra.11": {false, 3, 2, 3, "v11", true, true, true, true, true, "yes", true},     // v11 + MSC4289/4291/4297 (= v12)
+	"1":                   {true, 1, 1, 1, "v1", false, false, false, false, false, "no", false},
+	"2":                   {true, 2, 1, 1, "v1", false, false, false, false, false, "no", false},
+	"3":                   {true, 2, 2, 2, "v1", false, false, false, false, false, "no", false},
+	"4":                   {true, 2, 2, 3, "v1", false, false, false, false, false, "no", false},
+	"5":                   {true, 2, 2, 3, "v1", true, false, false, false, false, "no", false},
+	"6":                   {true, 2, 2, 3, "v6", true, true, false, false, false, "no", false},
+	"7":                   {true, 2, 2, 3, "v6", true, true, false, true, false, "early", false},
+	"8":                   {true, 2, 2, 3, "v8", true, true, false, true, true, "early", false},
+	"9":                   {true, 2, 2, 3, "v9", true, true, false, true, true, "early", false},
+	"10":                  {true, 2, 2, 3, "v9", true, true, true, true, true, "yes", false},
+	"11":                  {true, 2, 2, 3, "v11", true, true, true, true, true, "yes", false},
+	"12":                  {true, 3, 2, 3, "v11", true, true, true, true, true, "yes", true},
+	"org.matrix.msc3667":  {false, 2, 2, 3, "v6", true, true, true, true, false, "early", false}, // v7 + integer power levels
+	"org.matrix.msc3787":  {false, 2, 2, 3, "v9", true, true, false, true, true, "yes", false},   // v9 + knock_restricted
+	"org.matrix.msc4014":  {false, 2, 2, 3, "v9", true, true, true, true, true, "yes", false},    // v10 + pseudo IDs
+	"org.matrix.hydra.11": {false, 3, 2, 3, "v11", true, true, true, true, true, "yes", true},    // v11 + MSC4289/4291/4297 (= v12)
 }
 
 var c17Versions = []string{"1", "2", "3", "4", "5", "6", "7", "8", "9", "10", "11", "12",
